@@ -25,6 +25,7 @@ meta={"breaks_property":pid,"name":name,
  "needs_to_manifest":notes.strip(),
  "confirmed_in_scratch_worktree":v.strip(),
  "what_was_run":["tools/verify_seed.sh (scratch worktree /tmp/wt/verify: git apply; cargo test --offline; demo with and without the patch)","tools/run_seeded.sh (git -C /repo apply; ./check <ID> --no-regress for all 18 IDs; git -C /repo checkout -- .)"],
+ "harness_commit": __import__("subprocess").run(["git","-C","/verif","rev-parse","--short","HEAD"],capture_output=True,text=True).stdout.strip(), "repo_commit": __import__("subprocess").run(["git","-C","/repo","rev-parse","--short","HEAD"],capture_output=True,text=True).stdout.strip(),
  "caught_by_quick_checks":caught.split(),"signatures":sigs.split(),
  "caught_by_own_property_check": pid in caught.split()}
 json.dump(meta,open(os.path.join(dst,'meta.json'),'w'),indent=1)
